@@ -925,8 +925,8 @@ def _async_worker(
                 observation, reward, terminated, truncated, info = env.step(data)
                 if all(
                     [
-                        term | trunc
-                        for term, trunc in zip(terminated.values(), truncated.values())
+                        terminated[agent] | truncated[agent]
+                        for agent in terminated.keys()
                     ]
                 ):
                     observation, info = env.reset()
